@@ -31,7 +31,7 @@ LEVEL_NOTE = "trusted: vf/sched.py hooks; the 40-line membership model in this m
 ASSUMPTIONS = ["ancestors of the calling doer are never removed (outside the quantifier)",
                "targets are the Doist or DoDoer(always=True) (the statement's scope)"]
 NSHARDS = {"quick": 8, "thorough": 16}
-REQUIRE = {"own_list_object_as_argument": 100, "fresh_equal_bound_methods_passed": 100, "extend_calls_judged": 1500, "remove_calls_judged": 1500, "new_doers_entered": 1000, "running_doers_removed": 500,
+REQUIRE = {"constructor_list_updated_by_caller_before_call": 300, "own_list_object_as_argument": 100, "fresh_equal_bound_methods_passed": 100, "extend_calls_judged": 1500, "remove_calls_judged": 1500, "new_doers_entered": 1000, "running_doers_removed": 500,
            "self_removals": 150, "already_present_extends": 200, "absent_or_completed_removes": 200,
            "duplicate_within_call": 100, "dodoer_always_targets": 300}
 
@@ -71,7 +71,8 @@ def gen_case(rng):
         if rng.random() < 0.08:
             ids_ = ["*"]                  # the scheduler's own member list object as the argument
         fresh = rng.random() < 0.35       # bound-method doers named afresh (equal, not identical)
-        caller.setdefault("acts", {}).setdefault(str(k), []).append([op, target, ids_, False, fresh])
+        registry = rng.random() < 0.25    # the caller first updates the list it gave to the scheduler's constructor
+        caller.setdefault("acts", {}).setdefault(str(k), []).append([op, target, ids_, False, fresh, registry])
     prog = {"tock": tock, "tyme": rng.choice([0.0, 3.0]), "limit": tock * rng.choice([6, 9, 12]), "runner": "do",
             "doers": doers, "pool": pool, "dyadic": True}
     return {"prog": prog, "target": target}
@@ -168,6 +169,8 @@ def run_case(case, ctx):
                 ctx.count("own_list_object_as_argument")
             if info.get("fresh"):
                 ctx.count("fresh_equal_bound_methods_passed", info["fresh"])
+            if info.get("registry"):
+                ctx.count("constructor_list_updated_by_caller_before_call")
             if op == "extend":
                 ctx.count("extend_calls_judged")
                 new = []
